@@ -88,7 +88,10 @@ impl InboundQueryService {
     ) -> Result<(), crate::Error> {
         match msg.query {
             Query::ProveIdentity(challenge) => {
-                let res = peer.db.sign(challenge).await;
+                let res = peer
+                    .db
+                    .sign(IdentityAnswer::proof_message(&challenge))
+                    .await;
                 let self_peer = peer
                     .db
                     .get_peer_node(peer.verifying_key.clone())
